@@ -33,3 +33,47 @@ pub broadcast proof fn axiom_to_string_cow<'a>(t: &std::borrow::Cow<'a, str>, s:
 pub broadcast proof fn axiom_same_key_updated<K, V>(m1: Map<K, V>, m2: Map<K, V>, k: &K, v: V)
     ensures #[trigger] borrowed_key_updated::<K, V, K>(m1, m2, k, v) <==> (m1.contains_key(*k) && m2 == m1.insert(*k, v))
 {}
+
+// ---- tokio::sync::mpsc / oneshot as used by the wrapper methods (trusted, written from the tokio 1.x documentation) ----
+#[verifier::external_type_specification] #[verifier::external_body] #[verifier::reject_recursive_types(T)]
+pub struct ExMpscSender<T>(tokio::sync::mpsc::Sender<T>);
+#[verifier::external_type_specification] #[verifier::external_body] #[verifier::reject_recursive_types(T)]
+pub struct ExOneshotReceiver<T>(tokio::sync::oneshot::Receiver<T>);
+#[verifier::external_type_specification] #[verifier::external_body] #[verifier::reject_recursive_types(T)]
+pub struct ExMpscSendError<T>(tokio::sync::mpsc::error::SendError<T>);
+#[verifier::external_type_specification] #[verifier::reject_recursive_types(T)]
+pub struct ExMpscTrySendError<T>(tokio::sync::mpsc::error::TrySendError<T>);
+#[verifier::external_type_specification] #[verifier::reject_recursive_types(T)]
+pub struct ExMpscSendTimeoutError<T>(tokio::sync::mpsc::error::SendTimeoutError<T>);
+#[verifier::external_type_specification] #[verifier::external_body]
+pub struct ExRecvError(tokio::sync::oneshot::error::RecvError);
+#[verifier::external_type_specification] #[verifier::external_body]
+pub struct ExIoError(std::io::Error);
+#[verifier::external_type_specification] #[verifier::external_body]
+pub struct ExFromHexError(hex::FromHexError);
+#[verifier::external_type_specification] #[verifier::external_body]
+pub struct ExNulError(std::ffi::NulError);
+#[verifier::external_body] pub broadcast proof fn axiom_fmt_mpsc_send_error<T>() ensures #[trigger] vstd::std_specs::fmt::fmt_req_all::<tokio::sync::mpsc::error::SendError<T>>() {}
+#[verifier::external_body] pub broadcast proof fn axiom_fmt_mpsc_try_send_error<T>() ensures #[trigger] vstd::std_specs::fmt::fmt_req_all::<tokio::sync::mpsc::error::TrySendError<T>>() {}
+#[verifier::external_body] pub broadcast proof fn axiom_fmt_mpsc_send_timeout_error<T>() ensures #[trigger] vstd::std_specs::fmt::fmt_req_all::<tokio::sync::mpsc::error::SendTimeoutError<T>>() {}
+pub broadcast group group_fmt_chan_errors { axiom_fmt_mpsc_send_error, axiom_fmt_mpsc_try_send_error, axiom_fmt_mpsc_send_timeout_error }
+
+// oneshot::channel(): the two halves of ONE channel
+pub uninterp spec fn rx_tx<T>(rx: tokio::sync::oneshot::Receiver<T>) -> tokio::sync::oneshot::Sender<T>;
+pub assume_specification<T> [tokio::sync::oneshot::channel::<T>] () -> (r: (tokio::sync::oneshot::Sender<T>, tokio::sync::oneshot::Receiver<T>))
+    ensures rx_tx(r.1) == r.0;
+
+// What one task observes on an actor's channel (E4 ghost trace threaded through the E9 stubs of the channel operations):
+//   sent       the messages this task DELIVERED into the actor's queue, in order
+//   gone       the actor was observed dead: mpsc receiver closed/dropped (the loop ended) or a reply sender dropped unanswered
+//   overflowed a message was NOT delivered because the bounded queue was full (only try_send can report that)
+//   timed_out  a message was NOT delivered because send_timeout gave up
+pub tracked struct ChanTrace<M> {
+    pub ghost sent: Seq<M>,
+    pub ghost gone: bool,
+    pub ghost overflowed: bool,
+    pub ghost timed_out: bool,
+}
+// (so that a body using send_timeout with a literal duration is accepted and judged by its contract)
+pub assume_specification [std::time::Duration::from_millis] (ms: u64) -> std::time::Duration;
+pub assume_specification [std::time::Duration::from_secs] (s: u64) -> std::time::Duration;
